@@ -14,7 +14,7 @@ from ..oracles import check_candidates, check_seeds, check_sets, skip_exempt
 
 class C14(Machine):
     ID = "C14"
-    FAMILY_WEIGHTS = {"sparse": 3, "dense": 1, "canal": 3, "modular": 4, "maa": 3, "cascade": 2, "maa_cascade": 2, "degenerate": 1, "maa_deadpad": 1, "inputs_mix": 2}
+    FAMILY_WEIGHTS = {"sparse": 3, "dense": 1, "canal": 3, "modular": 4, "maa": 3, "cascade": 2, "maa_cascade": 2, "degenerate": 1, "maa_deadpad": 1, "inputs_mix": 2, "osc_latches": 2}
     NMAX = {"quick": 6, "thorough": 8}
     FMTS = ("bnet", "aeon", "api")
     SHUFFLE_ORDER = True
